@@ -125,6 +125,10 @@ func goType(te string) reflect.Type {
 		return reflect.TypeOf("")
 	case te == "any":
 		return anyType
+	case te == "[2]int":
+		return reflect.TypeOf([2]int{})
+	case te == "[]int":
+		return reflect.TypeOf([]int{})
 	case strings.HasPrefix(te, "*"):
 		return reflect.PointerTo(goType(te[1:]))
 	case strings.HasPrefix(te, "map[string]"):
@@ -155,6 +159,10 @@ func typeExpr(t reflect.Type) string {
 		return "map[int]" + typeExpr(t.Elem())
 	case reflect.Struct:
 		return t.Name()
+	case reflect.Array:
+		return "[2]int"
+	case reflect.Slice:
+		return "[]int"
 	}
 	panic("type outside the universe: " + t.String())
 }
@@ -258,13 +266,14 @@ func expandPath(te string, p []string) []string {
 
 // V mirrors FMUniverse.val. Structs are sparse (absent field = zero value).
 type V struct {
-	K   string        `json:"k"`             // nil | int | str | struct | ptr | map
+	K   string        `json:"k"`             // nil | int | str | struct | ptr | map | arr | sl
 	Z   int64         `json:"z,omitempty"`   // int
 	S   string        `json:"s,omitempty"`   // str
 	T   string        `json:"t,omitempty"`   // struct: name; ptr: pointee type; map: element type
 	IK  bool          `json:"ik,omitempty"`  // map: int keys (map[int]T)
 	Nil bool          `json:"nil,omitempty"` // ptr / map: nil
 	P   *V            `json:"p,omitempty"`   // ptr: pointee
+	E   []int64       `json:"e,omitempty"`   // arr ([2]int) / sl ([]int): elements. Opaque leaves outside the model's universe
 	F   map[string]*V `json:"f,omitempty"`   // struct fields / map entries
 }
 
@@ -297,12 +306,23 @@ func (v *V) dynType() string {
 			return "map[int]" + v.T
 		}
 		return "map[string]" + v.T
+	case "arr":
+		return "[2]int"
+	case "sl":
+		return "[]int"
 	}
 	panic("bad V")
 }
 
+// does the type expression mention an opaque leaf type (array, slice): such cases are not sent to the model
+func opaqueType(te string) bool { return strings.Contains(te, "[2]int") || strings.Contains(te, "[]int") }
+
 func zeroV(te string) *V {
 	switch {
+	case te == "[2]int":
+		return &V{K: "arr", E: []int64{0, 0}}
+	case te == "[]int":
+		return &V{K: "sl", Nil: true}
 	case te == "int":
 		return vInt(0)
 	case te == "string":
@@ -327,6 +347,7 @@ func (v *V) clone() *V {
 	}
 	c := *v
 	c.P = v.P.clone()
+	c.E = append([]int64(nil), v.E...)
 	if v.F != nil {
 		c.F = make(map[string]*V, len(v.F))
 		for k, e := range v.F {
@@ -362,6 +383,21 @@ func build(v *V, t reflect.Type) reflect.Value {
 				panic("cannot build field " + name + " of " + t.String())
 			}
 			f.Set(build(fv, f.Type()))
+		}
+		return rv
+	case "arr":
+		rv := reflect.New(t).Elem()
+		for i := 0; i < rv.Len() && i < len(v.E); i++ {
+			rv.Index(i).SetInt(v.E[i])
+		}
+		return rv
+	case "sl":
+		if v.Nil {
+			return reflect.Zero(t)
+		}
+		rv := reflect.MakeSlice(t, len(v.E), len(v.E))
+		for i := range v.E {
+			rv.Index(i).SetInt(v.E[i])
 		}
 		return rv
 	case "ptr":
@@ -414,6 +450,19 @@ func render(rv reflect.Value) *V {
 				continue
 			}
 			v.F[rv.Type().Field(i).Name] = render(f)
+		}
+		return v
+	case reflect.Array, reflect.Slice:
+		v := &V{K: "arr"}
+		if rv.Kind() == reflect.Slice {
+			v.K = "sl"
+			if rv.IsNil() {
+				v.Nil = true
+				return v
+			}
+		}
+		for i := 0; i < rv.Len(); i++ {
+			v.E = append(v.E, rv.Index(i).Int())
 		}
 		return v
 	case reflect.Ptr:
@@ -492,6 +541,13 @@ func (v *V) String() string {
 		}
 		b.WriteString("}")
 		return b.String()
+	case "arr":
+		return fmt.Sprint("[2]int", v.E)
+	case "sl":
+		if v.Nil || len(v.E) == 0 {
+			return "[]int(nil)" // nil and empty are not distinguished (loose)
+		}
+		return fmt.Sprint("[]int", v.E)
 	case "ptr":
 		if v.Nil {
 			return "(*" + v.T + ")nil"
